@@ -18,6 +18,7 @@ mod driver;
 mod faulty_writer;
 mod gen;
 mod lexsim;
+mod procsim;
 mod rng;
 mod sinksim;
 mod spec;
@@ -28,6 +29,7 @@ use driver::{Dyn, DynEngine};
 fn engine_for(prop: &str) -> Option<Box<dyn DynEngine>> {
     Some(match prop {
         "C06" => Box::new(Dyn(c06::EnvSim)),
+        "C10" => Box::new(Dyn(procsim::ProcSim)),
         "C11" => Box::new(Dyn(cmdsim::CmdSim)),
         "C12" => Box::new(Dyn(c12::HelpSim)),
         #[cfg(feature = "derive_corpus")]
@@ -41,7 +43,7 @@ fn engine_for(prop: &str) -> Option<Box<dyn DynEngine>> {
     })
 }
 
-pub const ALL_PROPS: &[&str] = &["C06", "C11", "C12", "C13", "C14", "C15", "C16", "C18", "C19"];
+pub const ALL_PROPS: &[&str] = &["C06", "C10", "C11", "C12", "C13", "C14", "C15", "C16", "C18", "C19"];
 
 fn arg_val(args: &[String], name: &str) -> Option<String> {
     args.iter().position(|a| a == name).and_then(|i| args.get(i + 1).cloned())
@@ -65,6 +67,9 @@ fn main() {
         std::process::exit(2);
     }
     let cmd = args[0].as_str();
+    if cmd == "child-cli" {
+        procsim::child_main();
+    }
     if cmd == "list" {
         println!("{}", ALL_PROPS.join(" "));
         return;
